@@ -65,7 +65,7 @@ CLOSERS = {".extend(std::iter::empty().chain(": ")"}
 
 def lib_files():
     out = []
-    for root in ("src",):
+    for root in tuple(os.environ.get("AUTOMUT_ROOTS", "src").split(",")):
         for dp, dn, fns in os.walk(os.path.join(REPO, root)):
             for fn in sorted(fns):
                 if fn.endswith(".rs"):
@@ -230,6 +230,7 @@ def run(outdir, workers=7):
         w, mid = args
         d = pools[w]
         subprocess.check_call(["rsync", "-a", "--exclude", ".git", "--exclude", "target", REPO + "/src/", d + "/src/"])
+        subprocess.check_call(["rsync", "-a", "--exclude", ".git", "--exclude", "target", REPO + "/shred-derive/src/", d + "/shred-derive/src/"])
         p = subprocess.run(["patch", "-p1", "-s", "-d", d, "-i", os.path.join(alld, mid + ".diff")], stdout=subprocess.PIPE, stderr=subprocess.STDOUT)
         if p.returncode != 0:
             return mid, "patch-failed"
@@ -285,6 +286,8 @@ if __name__ == "__main__":
         gen(sys.argv[2], OPS3)
     elif cmd == "gen4":
         gen_struct(sys.argv[2])
+    elif cmd == "genall":
+        gen(sys.argv[2], OPS + OPS2 + OPS3)
     elif cmd == "run":
         run(sys.argv[2], int(sys.argv[3]) if len(sys.argv) > 3 else 7)
     elif cmd == "triage":
